@@ -1458,7 +1458,7 @@ def default_ns_family(ctx: Ctx, drv: Optional[Driver]) -> None:
         for _ in range(ctx.pick(5, 8)):
             xml = gen_defns_doc(ctx.rng)
             ctx.count('defns:docs')
-            if b'</ext><item' in xml or b'</ext></w><item' in xml:
+            if b'</ext></item><item' in xml or b'</ext></w></item><item' in xml:
                 ctx.count('defns:default-namespace-on-last-descendant-then-sibling')
             try:
                 run_one(ctx, drv, xsd, xml, {'family': 'default-namespace-on-descendants'})
